@@ -5,10 +5,16 @@ import (
 	"os"
 	"os/exec"
 	"path/filepath"
+	"runtime"
 	"sort"
 	"strings"
+	"sync"
 
+	"verif/ev"
 	"verif/rig"
+
+	"github.com/attestantio/dirk/rules"
+	"github.com/attestantio/dirk/services/checker"
 )
 
 // The explorers see what happens at scheduling points and at request boundaries; memory that two goroutines of the code
@@ -133,4 +139,60 @@ func replayRace(id, key string) int {
 	}
 	fmt.Println("  no such race reported on replay")
 	return 0
+}
+
+// sigRaceBodies: six clients sign side by side through the real signer stack (four on keys of their own, two sharing
+// a key), single requests and batches; prop selects proposals, otherwise attestations.
+func sigRaceBodies(prop bool) error {
+	old := runtime.GOMAXPROCS(4)
+	defer runtime.GOMAXPROCS(old)
+	r, err := rig.NewSignerRig(rig.SignerOpts{})
+	if err != nil {
+		return err
+	}
+	defer r.Close()
+	creds := &checker.Credentials{Client: rig.DefaultClient, RequestID: "r", IP: "10.0.0.1"}
+	shared := r.AddSymAccount("Wallet 1", "", "pass", true)
+	var wg sync.WaitGroup
+	for c := 0; c < 6; c++ {
+		own := r.AddSymAccount("Wallet 1", "", "pass", true)
+		second := r.AddSymAccount("Wallet 1", "", "pass", true)
+		if c >= 4 {
+			own = shared
+		}
+		wg.Add(1)
+		go func(c int) {
+			defer wg.Done()
+			for i := 0; i < 8; i++ {
+				if prop {
+					r.Signer.SignBeaconProposal(r.Ctx, creds, "Wallet 1/"+own.Name(), nil, PropData(Ent{Slot: uint64(i + 1), Root: c + 1}))
+					r.Signer.SignBeaconProposal(r.Ctx, creds, "", second.PubBytes(), PropData(Ent{Slot: uint64(i + 1), Root: c + 1}))
+					continue
+				}
+				r.Signer.SignBeaconAttestation(r.Ctx, creds, "Wallet 1/"+own.Name(), nil, AttData(Ent{S: uint64(2 * i), T: uint64(2*i + 1), Root: c + 1}))
+				r.Signer.SignBeaconAttestations(r.Ctx, creds, []string{"Wallet 1/" + own.Name(), "Wallet 1/" + second.Name()}, nil,
+					[]*rules.SignBeaconAttestationData{AttData(Ent{S: uint64(2*i + 1), T: uint64(2*i + 2), Root: c + 1}), AttData(Ent{S: uint64(2*i + 1), T: uint64(2*i + 2), Root: c + 1})})
+			}
+		}(c)
+	}
+	wg.Wait()
+	return nil
+}
+
+// raceFindings runs the race pass of a check and records its reports; the returned map goes into the coverage.
+func raceFindings(run *ev.Run, what string) (map[string]any, error) {
+	reports, total, ran, err := racePass(run.ID)
+	if err != nil {
+		return nil, err
+	}
+	for _, rr := range reports {
+		run.Violate("data-race:"+rr.Key, fmt.Sprintf("while clients sign side by side, two goroutines touch the same memory with no synchronisation between them (%s): what is recorded and signed for one request depends on the other's timing. Race detector report:\n%s", rr.Key, rr.Text),
+			map[string]any{"check": run.ID, "race": rr.Key})
+	}
+	return map[string]any{"ran": ran, "reports": total, "reports_with_dirk_code_on_both_sides": len(reports), "bodies": what}, nil
+}
+
+func init() {
+	RaceBodies["C01"] = func() error { return sigRaceBodies(false) }
+	RaceBodies["C02"] = func() error { return sigRaceBodies(true) }
 }
